@@ -1,24 +1,41 @@
 #!/usr/bin/env python3
-"""Re-runs, for every seeded change under /verif/seeded, the check of the property it breaks with the
-patch applied to /repo (and undone afterwards); records the result in meta.json ("recheck")."""
-import json, os, subprocess, sys, glob, time
+"""Re-runs, for every seeded change under /verif/seeded, the check of the property it breaks against a scratch worktree of
+/repo's HEAD with the patch applied (MOSAIK_SRC; /repo itself is not touched, so this can run next to other checks);
+records the result in meta.json ("recheck").  Several seeds run in parallel (argument: number of jobs, default 6)."""
+import json, os, subprocess, sys, glob, time, shutil
+from concurrent.futures import ThreadPoolExecutor
 V = "/verif"
-rows = []
-for d in sorted(glob.glob(f"{V}/seeded/*/")):
+jobs = int(sys.argv[1]) if len(sys.argv) > 1 else 6
+subprocess.run(["sh", "-c", f"cd {V}/lean && lake build >/dev/null 2>&1"], check=True)
+
+
+def one(d):
     meta_p = os.path.join(d, "meta.json")
     meta = json.load(open(meta_p))
     pid = meta["breaks_property"]
-    assert subprocess.run(["git", "-C", "/repo", "status", "--porcelain"], capture_output=True, text=True).stdout.strip() == "", "/repo not clean"
-    subprocess.run(["git", "-C", "/repo", "apply", os.path.join(d, "patch.diff")], check=True)
+    wt = f"/tmp/wt-recheck-{os.getpid()}-{meta['seed']}"
+    subprocess.run(["git", "-C", "/repo", "worktree", "add", "--detach", wt, "HEAD"], check=True, capture_output=True)
     try:
+        subprocess.run(["git", "-C", wt, "apply", os.path.join(d, "patch.diff")], check=True)
         t0 = time.time()
-        r = subprocess.run([f"{V}/check", pid], capture_output=True, text=True, cwd=V)
+        # evidence / replay files of concurrent runs of the same property would collide: give each run its own seed number
+        env = dict(os.environ, MOSAIK_SRC=wt, VERIF_SEED=str(1000 + abs(hash(meta["seed"])) % 9000))
+        r = subprocess.run([f"{V}/check", pid], capture_output=True, text=True, cwd=V, env=env)
         lines = [l for l in r.stdout.split("\n") if l.startswith("VIOLATION")]
     finally:
-        subprocess.run(["git", "-C", "/repo", "checkout", "--", "."], check=True)
+        subprocess.run(["git", "-C", "/repo", "worktree", "remove", "--force", wt], capture_output=True)
     res = "missed" if not lines else ("detected (no-failing-input-found)" if lines[0].endswith("no-failing-input-found") else "detected with a concrete failing input")
     meta["recheck"] = {"check": pid, "result": res, "exit": r.returncode, "wall_s": round(time.time() - t0, 1)}
     json.dump(meta, open(meta_p, "w"), indent=1)
-    rows.append((meta["seed"], pid, res))
     print(meta["seed"], pid, res, flush=True)
-print(sum(1 for r in rows if r[2] != "missed"), "of", len(rows), "detected")
+    return (meta["seed"], pid, res)
+
+
+with ThreadPoolExecutor(jobs) as ex:
+    rows = list(ex.map(one, sorted(glob.glob(f"{V}/seeded/*/"))))
+subprocess.run(["git", "-C", "/repo", "worktree", "prune"])
+print(sum(1 for r in rows if r[2] != "missed"), "of", len(rows), "detected;",
+      sum(1 for r in rows if r[2].startswith("detected with")), "with a concrete failing input")
+for r in rows:
+    if not r[2].startswith("detected with"):
+        print("  ", *r)
